@@ -48,6 +48,17 @@ func vCheckIDs(st *vUP4Stack, tag string) {
 			vAssert(tag+":tunnel-peer-id-in-use-is-not-in-the-free-pool", uint64(free) != id)
 		}
 	}
+	// a tunnel-peer id a live downlink session entry forwards to is in use too -
+	// whether or not its tunnel_peers entry is (still) there
+	for _, r := range sd {
+		id, ok := r.params["tunnel_peer_id"]
+		if !ok || id == 0 {
+			continue
+		}
+		for _, free := range u.tunnelPeerIDsPool {
+			vAssert(tag+":tunnel-peer-id-a-live-session-forwards-to-is-not-in-the-free-pool", uint64(free) != id)
+		}
+	}
 	// meter cells referenced by live entries
 	appCells, sessCells := map[uint64]bool{}, map[uint64]bool{}
 	for _, r := range append(append([]vRec{}, tu...), td...) {
